@@ -290,6 +290,26 @@ impl Space for Years {
                 assert_eq!((jan1.dow as i64 - 1 + days_in_year(y) as i64) % 7 + 1, next.dow as i64);
             }
         }
+        // injectivity: no (y, m, d) outside the month-length table is accepted, and constrain clamps to the table
+        for m in 1..=12u8 {
+            let dim = days_in_month(y, m);
+            if !date_in_limits(y, m, dim) {
+                continue;
+            }
+            for d in [dim + 1, 0, 32] {
+                if d == dim + 1 && d > 31 {
+                    continue;
+                }
+                let got = call(|| pd(y, m, d));
+                out.lockstep("try_new(non-existent day)", &Err::<(), _>(ErrorKind::Range), &got, |_, _| true, || vec![("date", format!("{y}-{m}-{d}"))]);
+            }
+            let got = call(|| PlainDate::new(y as i32, m, 31, Calendar::default()));
+            out.lockstep("new(constrain day 31)", &Ok(dim), &got, |a, b| b.day() == *a && b.month() == m && b.year() as i64 == y, || vec![("date", format!("{y}-{m}-31"))]);
+        }
+        for m in [0u8, 13] {
+            let got = call(|| pd(y, m, 1));
+            out.lockstep("try_new(non-existent month)", &Err::<(), _>(ErrorKind::Range), &got, |_, _| true, || vec![("date", format!("{y}-{m}-1"))]);
+        }
         if out.want_sample() {
             out.sample(json!({"year": y, "leap": is_leap(y), "jan1_dow": jan1.dow}));
         }
